@@ -37,3 +37,11 @@ def offset_data_obligations(seed):
         obs.append(Ob(f"{name}: data of large range (two groups 1e5 apart) still yields a coherent model", PROVED if not fails else REFUTED, "native", "B",
                       {"failing": fails[:2], "replayed": bool(fails)}, fn=f"{name}.fit"))
     return obs
+
+
+def mlcl_degenerate_obligations(seed):
+    obs = []
+    for name, fails in R.mlcl_degenerate(seed).items():
+        obs.append(Ob(f"{name} + must-link / cannot-link on duplicated or saturated pairs: finite parameters, probabilities and scores", PROVED if not fails else REFUTED,
+                      "native", "B", {"failing": fails[:2], "replayed": bool(fails)}, fn="gemclus.mlcl.add_mlcl_constraint"))
+    return obs
